@@ -14,6 +14,8 @@ the way a foreign caller does.  Three exhaustive sweeps (g++ and clang++ -std=c+
   strings   every byte string of length 0..=L over {NUL, 'a', 0xC3, ' '} x element type {char, unsigned char}:
             std::string -> CSliceRef<T> keeps address and length; CSliceRef<T> -> std::string gives the same bytes (a slice is
             {data, length}: an interior or trailing NUL is content); (pointer, length) construction likewise
+  release   the four container specialisations over a CBox / CArc pair with recording drop functions: drop() releases the
+            instance first and the context last (the order in which Rust drops the fields), forget() releases nothing
   callbacks n = 0..=N items x stop position {never, after 1, n/2, n-1, n}: OpaqueCallback<S3> built from a
             std::vector<S3>* collects every offered item in order and never stops the feeder; built from a functor it is
             invoked once per item until the functor returns false
@@ -120,6 +122,42 @@ def driver(L, N):
                    "(long)sizeof(RustMaybeUninit<%s>), (long)sizeof(%s), (long)alignof(RustMaybeUninit<%s>), (long)alignof(%s));" % (rn, r, r, r, r, r, r, r, r))
     out.append("}")
     out.append(r'''
+/* release order of the containers: Rust drops the fields in declaration order - instance first, then the context (the
+   context typically keeps the library loaded that the instance's drop function lives in) */
+static std::string ORDER;
+static void rec_inst(void *) { ORDER += "instance;"; }
+static void rec_ctx(const void *) { ORDER += "context;"; }
+static const void *rec_clone(const void *p) { return p; }
+template<typename Cont> static void release_with_ctx(const char *shape) {
+    int dummy = 0;
+    Cont c;
+    c.instance = CBox<void>(&dummy, rec_inst);
+    c.context.instance = &dummy; c.context.clone_fn = rec_clone; c.context.drop_fn = rec_ctx;
+    ORDER.clear();
+    std::move(c).drop();
+    printf("CASE release %s x x %s order=%s\n", shape, ORDER == "instance;context;" ? "ok" : "bad", ORDER.c_str());
+    Cont f;
+    f.instance = CBox<void>(&dummy, rec_inst);
+    f.context.instance = &dummy; f.context.clone_fn = rec_clone; f.context.drop_fn = rec_ctx;
+    ORDER.clear();
+    f.forget();
+    printf("CASE forget %s x x %s order=%s\n", shape, ORDER.empty() ? "ok" : "bad", ORDER.c_str());
+}
+template<typename Cont> static void release_no_ctx(const char *shape) {
+    int dummy = 0;
+    Cont c;
+    c.instance = CBox<void>(&dummy, rec_inst);
+    ORDER.clear();
+    std::move(c).drop();
+    printf("CASE release %s x x %s order=%s\n", shape, ORDER == "instance;" ? "ok" : "bad", ORDER.c_str());
+}
+static void releases() {
+    release_with_ctx<CGlueObjContainer<CBox<void>, CArc<void>, R24> >("box_arc_tmp");
+    release_with_ctx<CGlueObjContainer<CBox<void>, CArc<void>, void> >("box_arc_notmp");
+    release_no_ctx<CGlueObjContainer<CBox<void>, void, R24> >("box_noctx_tmp");
+    release_no_ctx<CGlueObjContainer<CBox<void>, void, void> >("box_noctx_notmp");
+}
+
 static const unsigned char ALPHA[4] = {0x00, 'a', 0xC3, ' '};
 
 template<typename T> static void strings_for(const char *tname, int maxlen) {
@@ -184,7 +222,7 @@ static void callbacks(size_t nmax) {
     }
 }
 ''')
-    out.append("int main() {\n    layouts();\n    strings_for<char>(\"char\", %d);\n    strings_for<unsigned char>(\"uchar\", %d);\n    callbacks(%d);\n    printf(\"DONE\\n\");\n    return 0;\n}\n" % (L, L, N))
+    out.append("int main() {\n    layouts();\n    releases();\n    strings_for<char>(\"char\", %d);\n    strings_for<unsigned char>(\"uchar\", %d);\n    callbacks(%d);\n    printf(\"DONE\\n\");\n    return 0;\n}\n" % (L, L, N))
     return "\n".join(out) + "\n"
 
 
@@ -223,7 +261,9 @@ def parse(text):
             continue
         f = ln.split()
         kind = f[1]
-        if kind in ("layout", "maybeuninit"):
+        if kind in ("release", "forget"):
+            cases.append({"kind": kind, "key": " ".join(f[1:5]), "ok": f[5] == "ok", "detail": " ".join(f[6:])})
+        elif kind in ("layout", "maybeuninit"):
             cases.append({"kind": kind, "key": " ".join(f[1:5]), "ok": f[5] == "ok", "detail": " ".join(f[6:])})
         elif kind == "string":
             cases.append({"kind": kind, "key": " ".join(f[1:5]), "ok": f[5] == "ok", "detail": " ".join(f[6:]), "len": int(f[3][4:])})
@@ -233,6 +273,8 @@ def parse(text):
 
 
 def signature(c):
+    if c["kind"] in ("release", "forget"):
+        return "cpphelper:%s_order" % c["kind"]
     if c["kind"] in ("layout", "maybeuninit"):
         d = dict(x.split("=") for x in c["detail"].split())
         for what in ("ret_tmp", "context", "instance", "align", "size"):
@@ -286,7 +328,7 @@ def run(prop, tier, replay, Ctx):
                   "container layout for instance {CBox<void>, void*} x context {none, CArc<void>, 1/4/8/12-byte user contexts} x temporary storage {none, 1, 2, 4, 8, 24 bytes, "
                   "16-byte aligned} against the plain struct with the same members (size, alignment, offset of every member) and RustMaybeUninit<X> against X; "
                   "std::string <-> CSliceRef<char|unsigned char> for every byte string of length 0..=%d over {NUL, 'a', 0xC3, ' '} (address, length, bytes); "
-                  "OpaqueCallback<S3> from a std::vector and from a functor for n = 0..=%d items x 5 stop positions; distinct = distinct (case, outcome)" % (L, N))
+                  "drop() of the four container specialisations releases the instance, then the context; forget() nothing; OpaqueCallback<S3> from a std::vector and from a functor for n = 0..=%d items x 5 stop positions; distinct = distinct (case, outcome)" % (L, N))
     if "compile_error" in r:
         rep.record(sec, {"kind": "all"}, None, True, ("cpphelper:compile_error", "the driver using the header's runtime-type templates does not compile:\n" + r["compile_error"][-900:]))
         return ("report", rep.build())
